@@ -220,6 +220,9 @@ pub static mut SINCOS_PARITY: bool = false;
 pub fn sin_cos_f32(x: f32) -> (f32, f32) {
     #[cfg(kani)]
     unsafe {
+        if x != x || x.is_infinite() {
+            return (f32::NAN, f32::NAN); // true fact about every sin/cos: NaN for NaN and infinite arguments
+        }
         let bits = if x != x { 0x7fc0_0000u32 } else { x.to_bits() };
         let neg = SINCOS_PARITY && (bits >> 31) == 1;
         let k = if SINCOS_PARITY { (bits & 0x7fff_ffff) as u64 } else { bits as u64 };
@@ -239,6 +242,9 @@ pub static mut SINCOS64_MODE: u8 = ANY;
 pub fn sin_cos_f64(x: f64) -> (f64, f64) {
     #[cfg(kani)]
     unsafe {
+        if x != x || x.is_infinite() {
+            return (f64::NAN, f64::NAN);
+        }
         let bits = if x != x { 0x7ff8_0000_0000_0000u64 } else { x.to_bits() };
         let neg = SINCOS_PARITY && (bits >> 63) == 1;
         let k = if SINCOS_PARITY { bits & 0x7fff_ffff_ffff_ffff } else { bits };
